@@ -484,6 +484,7 @@ def _known_variant_at_end(blk, local):
 
 
 VARIANT_NO = {"Ok": 0, "Err": 1}
+OPTION_NO = {"None": 0, "Some": 1}
 
 
 def _transfer(blk, st):
@@ -496,6 +497,9 @@ def _transfer(blk, st):
             rv = s["rv"]
             if rv["k"] == "aggregate" and (rv.get("adt") or "").endswith(RESULT) and rv.get("variant_name") in VARIANT_NO:
                 st[l] = VARIANT_NO[rv["variant_name"]]
+                continue
+            if rv["k"] == "aggregate" and (rv.get("adt") or "").endswith("option::Option") and rv.get("variant_name") in OPTION_NO:
+                st[l] = OPTION_NO[rv["variant_name"]]
                 continue
             if rv["k"] == "use" and rv["op"].get("k") in ("move", "copy") and not rv["op"]["place"]["proj"] and rv["op"]["place"]["local"] in st:
                 st[l] = st[rv["op"]["place"]["local"]]
@@ -542,7 +546,7 @@ def thread_results(body, types=None, max_clones=400):
         if types is None:
             return False
         s = types[m["locals"][l]["ty"]].get("s", "")
-        return s.startswith("std::result::Result<") or s.startswith("std::ops::ControlFlow<")
+        return s.startswith("std::result::Result<") or s.startswith("std::ops::ControlFlow<") or s.startswith("std::option::Option<")
 
     for _ in range(600):
         # forward must-analysis, edge-sensitive at discriminant switches
@@ -617,7 +621,7 @@ def thread_results(body, types=None, max_clones=400):
             if i == 0 or IN[i] is None or len(preds[i]) < 2 or b.get("cleanup") or len(b["stmts"]) > 3:
                 continue
             t = b["term"]
-            if not (t["k"] in ("goto", "switch", "return") or (t["k"] == "call" and (t["callee"].get("def") or "").endswith("ops::Try::branch"))):
+            if not (t["k"] in ("goto", "switch", "return") or (t["k"] == "call" and (t["callee"].get("def") or "").endswith(("ops::Try::branch", "ops::FromResidual::from_residual")))):
                 continue
             rel = _relevant_locals(blocks, i, preds)
             if not rel:
@@ -878,6 +882,15 @@ def _relevant_locals(blocks, i, preds):
     # backward over the chain
     want = set()
     t = last["term"]
+    first = blocks[i]
+    if first["term"]["k"] == "call" and (first["term"]["callee"].get("def") or "").endswith("ops::FromResidual::from_residual"):
+        # the Break arm of a `?`: worth its own copy per error that can arrive here
+        for s in first["stmts"]:
+            if s["k"] == "assign" and s["rv"]["k"] == "use" and s["rv"]["op"].get("k") in ("move", "copy"):
+                pr = s["rv"]["op"]["place"]["proj"]
+                if pr and pr[0]["k"] == "downcast":
+                    want.add(s["rv"]["op"]["place"]["local"])
+        return want
     if t["k"] == "switch" and t["discr"].get("k") in ("move", "copy"):
         want.add(t["discr"]["place"]["local"])
     if t["k"] == "return":
@@ -972,6 +985,129 @@ def thread_all(d):
         if "mir" in b and b.get("kind") in ("Fn", "AssocFn", "Closure"):
             if thread_results(b, d["types"]):
                 n += 1
+    return n
+
+
+# ------------------------------------------------------------------------------------------------ ok_or
+
+def rewrite_ok_or(d):
+    """`opt.ok_or(e)` is `match opt { Some(x) => Ok(x), None => Err(e) }` (the error value is an operand, already
+    evaluated). Rewriting the call into that match lets the jump threading resolve a following `?`, so both spellings
+    have one normal form."""
+    tys = d["types"]
+    isize_ty = next((i for i, t in enumerate(tys) if t.get("s") == "isize"), None)
+    if isize_ty is None:
+        return 0
+    n = 0
+    for b in d["bodies"]:
+        if "mir" not in b:
+            continue
+        m = b["mir"]
+        for bi in range(len(m["blocks"])):
+            blk = m["blocks"][bi]
+            t = blk["term"]
+            if t["k"] != "call" or blk.get("cleanup") or t.get("target") is None or t["dest"]["proj"] or len(t["args"]) != 2:
+                continue
+            if not (t["callee"].get("def") or "").endswith("option::Option::<T>::ok_or"):
+                continue
+            o, e = t["args"]
+            if o.get("k") not in ("move", "copy") or o["place"]["proj"]:
+                continue
+            ol = o["place"]["local"]
+            oty = tys[m["locals"][ol]["ty"]]
+            if oty.get("k") != "adt" or not oty.get("adt", "").endswith("option::Option") or not oty.get("args"):
+                continue
+            pay_ty = oty["args"][0]
+            line = t.get("l", 0)
+            dl = len(m["locals"])
+            pl = dl + 1
+            m["locals"] += [{"ty": isize_ty, "mut": True}, {"ty": pay_ty, "mut": True}]
+            some_b, none_b = len(m["blocks"]), len(m["blocks"]) + 1
+            dest = copy.deepcopy(t["dest"])
+            blk["stmts"].append({"k": "assign", "place": {"local": dl, "proj": []}, "rv": {"k": "discr", "place": {"local": ol, "proj": []}}, "l": line, "x": False})
+            blk["term"] = {"k": "switch", "discr": {"k": "move", "place": {"local": dl, "proj": []}}, "targets": [[0, none_b]], "otherwise": some_b, "l": line, "x": False}
+            pay_place = {"local": ol, "proj": [{"k": "downcast", "variant": 1, "name": "Some"}, {"k": "field", "i": 0, "name": "0", "ty": pay_ty}]}
+            m["blocks"].append({"stmts": [
+                {"k": "assign", "place": {"local": pl, "proj": []}, "rv": {"k": "use", "op": {"k": "move", "place": pay_place}}, "l": line, "x": False},
+                {"k": "assign", "place": copy.deepcopy(dest), "rv": {"k": "aggregate", "agg": "adt", "adt": "std::result::Result", "variant": 0, "variant_name": "Ok", "field_names": ["0"], "ops": [{"k": "move", "place": {"local": pl, "proj": []}}]}, "l": line, "x": False}],
+                "term": {"k": "goto", "target": t["target"], "l": line, "x": False}, "cleanup": False})
+            m["blocks"].append({"stmts": [
+                {"k": "assign", "place": copy.deepcopy(dest), "rv": {"k": "aggregate", "agg": "adt", "adt": "std::result::Result", "variant": 1, "variant_name": "Err", "field_names": ["0"], "ops": [copy.deepcopy(e)]}, "l": line, "x": False}],
+                "term": {"k": "goto", "target": t["target"], "l": line, "x": False}, "cleanup": False})
+            n += 1
+    return n
+
+
+# ------------------------------------------------------------------------------------------------ slice::get(range)
+
+def rewrite_slice_get(d):
+    """`x.get(..n)` / `x.get_mut(..n)` / `x.get(n..)` is `if n <= x.len() { Some(&x[..n]) } else { None }`: rewrite the call
+    into that test and the Index call of the slicing syntax."""
+    tys = d["types"]
+    usize_ty = next((i for i, t in enumerate(tys) if t.get("s") == "usize"), None)
+    bool_ty = next((i for i, t in enumerate(tys) if t.get("s") == "bool"), None)
+    if usize_ty is None or bool_ty is None:
+        return 0
+    templ = {}
+    for b in d["bodies"]:
+        if "mir" not in b:
+            continue
+        for blk in b["mir"]["blocks"]:
+            t = blk["term"]
+            if t["k"] == "call" and t["callee"].get("def") in ("std::ops::Index::index", "std::ops::IndexMut::index_mut"):
+                templ.setdefault((t["callee"]["def"], t["callee"].get("args")), (t["callee"], t.get("func")))
+    n = 0
+    for b in d["bodies"]:
+        if "mir" not in b:
+            continue
+        m = b["mir"]
+        for bi in range(len(m["blocks"])):
+            blk = m["blocks"][bi]
+            t = blk["term"]
+            if t["k"] != "call" or blk.get("cleanup") or t.get("target") is None or t["dest"]["proj"] or len(t["args"]) != 2:
+                continue
+            dn = t["callee"].get("def") or ""
+            if dn.endswith("slice::<impl [T]>::get"):
+                idx_def = "std::ops::Index::index"
+            elif dn.endswith("slice::<impl [T]>::get_mut"):
+                idx_def = "std::ops::IndexMut::index_mut"
+            else:
+                continue
+            args_s = t["callee"].get("args") or ""
+            if not (args_s.startswith("[") and args_s.endswith("]") and ", " in args_s):
+                continue
+            elem, rng_s = args_s[1:-1].split(", ", 1)
+            if rng_s == "std::ops::RangeTo<usize>":
+                fld, kind = "end", "to"
+            elif rng_s == "std::ops::RangeFrom<usize>":
+                fld, kind = "start", "from"
+            else:
+                continue
+            key = (idx_def, "[[%s], %s]" % (elem, rng_s))
+            x, r = t["args"]
+            if key not in templ or x.get("k") not in ("move", "copy") or x["place"]["proj"] or r.get("k") not in ("move", "copy") or r["place"]["proj"]:
+                continue
+            xt = m["locals"][x["place"]["local"]]["ty"]
+            line = t.get("l", 0)
+            base = len(m["locals"])
+            len_l, c_l, s_l = base, base + 1, base + 2
+            m["locals"] += [{"ty": usize_ty, "mut": True}, {"ty": bool_ty, "mut": True}, {"ty": xt, "mut": True}]
+            some_b, none_b, some2 = len(m["blocks"]), len(m["blocks"]) + 1, len(m["blocks"]) + 2
+            xc = copy.deepcopy(x)
+            xc["k"] = "copy"
+            bound = {"k": "copy", "place": {"local": r["place"]["local"], "proj": [{"k": "field", "i": 0, "name": fld, "ty": usize_ty}]}}
+            blk["stmts"].append({"k": "assign", "place": {"local": len_l, "proj": []}, "rv": {"k": "unop", "op": "PtrMetadata", "a": copy.deepcopy(xc)}, "l": line, "x": False})
+            blk["stmts"].append({"k": "assign", "place": {"local": c_l, "proj": []}, "rv": {"k": "binop", "op": "Le", "a": bound, "b": {"k": "copy", "place": {"local": len_l, "proj": []}}}, "l": line, "x": False})
+            dest = copy.deepcopy(t["dest"])
+            c, f = templ[key]
+            blk["term"] = {"k": "switch", "discr": {"k": "move", "place": {"local": c_l, "proj": []}}, "targets": [[0, none_b]], "otherwise": some_b, "l": line, "x": False}
+            m["blocks"].append({"stmts": [], "term": {"k": "call", "callee": copy.deepcopy(c), "func": copy.deepcopy(f), "args": [copy.deepcopy(x), copy.deepcopy(r)],
+                                                      "dest": {"local": s_l, "proj": []}, "target": some2, "unwind": t.get("unwind"), "l": line, "x": False}, "cleanup": False})
+            m["blocks"].append({"stmts": [{"k": "assign", "place": copy.deepcopy(dest), "rv": {"k": "aggregate", "agg": "adt", "adt": "std::option::Option", "variant": 0, "variant_name": "None", "field_names": [], "ops": []}, "l": line, "x": False}],
+                                "term": {"k": "goto", "target": t["target"], "l": line, "x": False}, "cleanup": False})
+            m["blocks"].append({"stmts": [{"k": "assign", "place": copy.deepcopy(dest), "rv": {"k": "aggregate", "agg": "adt", "adt": "std::option::Option", "variant": 1, "variant_name": "Some", "field_names": ["0"], "ops": [{"k": "move", "place": {"local": s_l, "proj": []}}]}, "l": line, "x": False}],
+                                "term": {"k": "goto", "target": t["target"], "l": line, "x": False}, "cleanup": False})
+            n += 1
     return n
 
 
